@@ -14,7 +14,7 @@ import (
 )
 
 func init() {
-	core.Register(core.Check{ID: "C16", Level: "model_checking", Run: func(c *core.Ctx) { runC16(c); reentrancyPass(c, "C16") }})
+	core.Register(core.Check{ID: "C16", Level: "model_checking", Run: func(c *core.Ctx) { runC16(c); historyPass(c, "C16"); reentrancyPass(c, "C16") }})
 }
 
 const c16Window = 89 // h + d <= 89 for strings of <= 90 characters; must not be widened (see DESIGN.md)
